@@ -353,3 +353,6 @@ def r7_migration_rows(ctx):
 from .C04 import r6_fetch_queue, r7_available_writers  # noqa: E402  (a requested output that is never fetched keeps the controller waiting for ever)
 
 RULES += [r7_migration_rows, r6_fetch_queue, r7_available_writers, r10_one_round_exactly_once]  # an unrecorded publication never becomes a transfer source: remote consumers starve
+
+from .common import lazy  # noqa: E402
+RULES.append(lazy("C16", "r1_projections", "the preschedule's edge maps: a consumer missing from them lands in no component / is never made computable"))
